@@ -55,22 +55,81 @@ theorem encAll_append (cap : Nat) (x : Nat × List Field) : ∀ (xs : List (Nat 
     obtain ⟨s, fs⟩ := y
     simp only [List.cons_append, encAll, ih]
 
-/-- invariant of a connection all of whose writers are atomic -/
-structure Inv (s : Sys) : Prop where
-  sync : encAll s.cap [] s.sent = (s.encT, s.wire)
-  nopending : s.pending = []
-  progs : ∀ p ∈ s.progs, p = [U.both] ∨ p = []
+theorem decAll_append (cap : Nat) : ∀ (a b : List Blk) (t t2 : Table) (out : List (Nat × List Field)),
+    decAll cap t (a ++ b) = some (t2, out) →
+      ∃ t1 o1 o2, decAll cap t a = some (t1, o1) ∧ decAll cap t1 b = some (t2, o2) ∧ out = o1 ++ o2 := by
+  intro a
+  induction a with
+  | nil => intro b t t2 out h; exact ⟨t, [], out, rfl, h, rfl⟩
+  | cons x xs ih =>
+    intro b t t2 out h
+    simp only [List.cons_append, decAll] at h ⊢
+    cases hd : decBlock cap t x.reps with
+    | none => simp [hd] at h
+    | some r =>
+      obtain ⟨t', fs⟩ := r
+      simp only [hd] at h ⊢
+      cases hr : decAll cap t' (xs ++ b) with
+      | none => simp [hr] at h
+      | some q =>
+        obtain ⟨t'', o⟩ := q
+        simp only [hr, Option.some.injEq, Prod.mk.injEq] at h
+        obtain ⟨rfl, rfl⟩ := h
+        obtain ⟨t1, o1, o2, h1, h2, h3⟩ := ih b t' t'' o hr
+        exact ⟨t1, (x.stream, fs) :: o1, o2, by simp [h1], h2, by simp [h3]⟩
+
+/-! ### the common mutex -/
+
+theorem mem_foldl_filter (m : String) : ∀ (r : List Fn) (g : List String),
+    m ∈ r.foldl (fun g f' => g.filter (heldAcross f'.acts).contains) g → m ∈ g ∧ ∀ f ∈ r, m ∈ heldAcross f.acts := by
+  intro r
+  induction r with
+  | nil => intro g h; exact ⟨h, by simp⟩
+  | cons f r ih =>
+    intro g h
+    have := ih _ h
+    simp only [List.mem_filter, List.contains_eq_mem, decide_eq_true_eq] at this
+    refine ⟨this.1.1, ?_⟩
+    intro f' hf'
+    rcases List.mem_cons.mp hf' with rfl | h'
+    · exact this.1.2
+    · exact this.2 f' h'
+
+/-- a mutex of `commonGuard` is in the guard of every function of the side -/
+theorem commonGuard_mem {m : String} {fs : List Fn} (h : m ∈ commonGuard fs) : ∀ f ∈ fs, m ∈ heldAcross f.acts := by
+  cases fs with
+  | nil => simp [commonGuard] at h
+  | cons f r =>
+    have := mem_foldl_filter m r _ h
+    intro f' hf'
+    rcases List.mem_cons.mp hf' with rfl | h'
+    · exact this.1
+    · exact this.2 f' h'
+
+theorem shares_of_mem {m : String} {a b : List String} (ha : m ∈ a) (hb : m ∈ b) : shares a b = true := by
+  simp only [shares, List.any_eq_true, List.contains_eq_mem, decide_eq_true_eq]
+  exact ⟨m, ha, hb⟩
+
+/-- invariant of a connection all of whose writers hold the mutex `m` from their encode to their write: at most one
+block is between encode and write, and the wire followed by it is the encode order -/
+structure Inv (m : String) (s : Sys) : Prop where
+  common : ∀ g ∈ s.guards, m ∈ g
+  sync : encAll s.cap [] s.sent = (s.encT, s.wire ++ s.inFlight)
+  pend : s.pending = [] ∨ ∃ i b g, s.pending = [(i, b)] ∧ s.guards[i]? = some g
+  progs : ∀ j p, s.progs[j]? = some p → p = [U.enc, U.wr] ∨ p = [] ∨ (p = [U.wr] ∧ ∃ b, s.pending = [(j, b)])
   own : ∀ x ∈ s.sent, x ∈ s.reqs
 
-theorem inv_start (cap : Nat) (reqs : List (Nat × List Field)) : Inv (Sys.start cap reqs [.both]) := by
-  refine ⟨rfl, rfl, ?_, ?_⟩
-  · intro p hp
-    simp only [Sys.start, List.mem_map] at hp
-    obtain ⟨_, _, rfl⟩ := hp
+theorem inv_start (m : String) (cap : Nat) (reqs : List (Nat × List Field)) (gs : List (List String))
+    (hg : ∀ g ∈ gs, m ∈ g) : Inv m (Sys.start cap reqs gs) := by
+  refine ⟨hg, rfl, Or.inl rfl, ?_, ?_⟩
+  · intro j p hp
+    have : p ∈ (Sys.start cap reqs gs).progs := List.mem_of_getElem? hp
+    simp only [Sys.start, List.mem_map] at this
+    obtain ⟨_, _, rfl⟩ := this
     exact Or.inl rfl
   · intro x hx; simp [Sys.start] at hx
 
-theorem inv_step {s : Sys} (h : Inv s) (i : Nat) : Inv (s.step i) := by
+theorem inv_step {m : String} {s : Sys} (h : Inv m s) (i : Nat) : Inv m (s.step i) := by
   unfold Sys.step
   cases hp : s.progs[i]? with
   | none => simpa using h
@@ -82,26 +141,91 @@ theorem inv_step {s : Sys} (h : Inv s) (i : Nat) : Inv (s.step i) := by
       | none => simpa using h
       | some r =>
         obtain ⟨st, fs⟩ := r
-        have hmem : (u :: rest) ∈ s.progs := List.mem_of_getElem? hp
-        have hu : u = U.both ∧ rest = [] := by
-          rcases h.progs _ hmem with h1 | h1
-          · cases h1; exact ⟨rfl, rfl⟩
-          · cases h1
-        obtain ⟨rfl, rfl⟩ := hu
-        simp only
-        refine ⟨?_, h.nopending, ?_, ?_⟩
-        · simp only [encAll_append, h.sync]
-        · intro p hp'
-          rcases List.mem_or_eq_of_mem_set hp' with h1 | h1
-          · exact h.progs p h1
-          · exact Or.inr h1
-        · intro x hx
-          simp only [List.mem_append, List.mem_singleton] at hx
-          rcases hx with hx | hx
-          · exact h.own x hx
-          · rw [hx]; exact List.mem_of_getElem? hr
+        cases hgi : s.guards[i]? with
+        | none => simpa using h
+        | some g =>
+          have hmg : m ∈ g := h.common g (List.mem_of_getElem? hgi)
+          have hilt : i < s.progs.length := by
+            rcases Nat.lt_or_ge i s.progs.length with h1 | h1
+            · exact h1
+            · rw [List.getElem?_eq_none h1] at hp; cases hp
+          cases u with
+          | enc =>
+            have hrest : rest = [U.wr] := by
+              rcases h.progs i _ hp with h1 | h1 | ⟨h1, _⟩
+              · cases h1; rfl
+              · cases h1
+              · cases h1
+            subst hrest
+            simp only
+            cases hb : s.blocked g with
+            | true => simpa using h
+            | false =>
+              have hpe : s.pending = [] := by
+                rcases h.pend with h1 | ⟨j, b, gj, h1, h2⟩
+                · exact h1
+                · exfalso
+                  have hmj : m ∈ gj := h.common gj (List.mem_of_getElem? h2)
+                  have : s.blocked g = true := by
+                    simp only [Sys.blocked, h1, List.any_cons, List.any_nil, Bool.or_false, h2, Option.getD_some]
+                    exact shares_of_mem hmj hmg
+                  rw [hb] at this; cases this
+              simp only [Bool.false_eq_true, if_false]
+              refine ⟨h.common, ?_, ?_, ?_, ?_⟩
+              · have hs := h.sync
+                simp only [Sys.inFlight, hpe, List.reverse_nil, List.map_nil, List.append_nil] at hs
+                simp only [encAll_append, hs, Sys.inFlight, hpe, List.reverse_cons, List.reverse_nil, List.nil_append,
+                  List.map_cons, List.map_nil]
+              · exact Or.inr ⟨i, _, g, by rw [hpe], hgi⟩
+              · intro j p hj
+                simp only [List.getElem?_set] at hj
+                by_cases hij : i = j
+                · subst hij
+                  simp only [if_true, hilt] at hj
+                  cases hj
+                  exact Or.inr (Or.inr ⟨rfl, _, by rw [hpe]⟩)
+                · simp only [hij, if_false] at hj
+                  rcases h.progs j p hj with h1 | h1 | ⟨_, b, h1⟩
+                  · exact Or.inl h1
+                  · exact Or.inr (Or.inl h1)
+                  · rw [hpe] at h1; cases h1
+              · intro x hx
+                simp only [List.mem_append, List.mem_singleton] at hx
+                rcases hx with hx | hx
+                · exact h.own x hx
+                · rw [hx]; exact List.mem_of_getElem? hr
+          | wr =>
+            have hw : rest = [] ∧ ∃ b, s.pending = [(i, b)] := by
+              rcases h.progs i _ hp with h1 | h1 | ⟨h1, h2⟩
+              · cases h1
+              · cases h1
+              · cases h1; exact ⟨rfl, h2⟩
+            obtain ⟨rfl, b, hpe⟩ := hw
+            simp only [hpe, List.find?_cons, beq_self_eq_true]
+            refine ⟨h.common, ?_, ?_, ?_, h.own⟩
+            · have hs := h.sync
+              simp only [Sys.inFlight, hpe, List.reverse_cons, List.reverse_nil, List.nil_append, List.map_cons,
+                List.map_nil] at hs
+              simp only [Sys.inFlight, List.filter_cons, bne_self_eq_false, Bool.false_eq_true, if_false,
+                List.filter_nil, List.reverse_nil, List.map_nil, List.append_nil]
+              exact hs
+            · exact Or.inl (by simp)
+            · intro j p hj
+              simp only [List.getElem?_set] at hj
+              by_cases hij : i = j
+              · subst hij
+                simp only [if_true, hilt] at hj
+                cases hj
+                exact Or.inr (Or.inl rfl)
+              · simp only [hij, if_false] at hj
+                rcases h.progs j p hj with h1 | h1 | ⟨_, b', h1⟩
+                · exact Or.inl h1
+                · exact Or.inr (Or.inl h1)
+                · rw [hpe] at h1
+                  simp only [List.cons.injEq, Prod.mk.injEq, and_true] at h1
+                  exact absurd h1.1 hij
 
-theorem inv_run {s : Sys} (h : Inv s) (sched : List Nat) : Inv (s.run sched) := by
+theorem inv_run {m : String} {s : Sys} (h : Inv m s) (sched : List Nat) : Inv m (s.run sched) := by
   unfold Sys.run
   induction sched generalizing s with
   | nil => exact h
@@ -111,7 +235,6 @@ theorem step_cap (s : Sys) (i : Nat) : (s.step i).cap = s.cap ∧ (s.step i).req
   unfold Sys.step
   repeat' split
   all_goals (try simp)
-  all_goals (cases List.find? (fun x => x.fst == i) s.pending <;> simp)
 
 theorem run_cap (s : Sys) (sched : List Nat) : (s.run sched).cap = s.cap ∧ (s.run sched).reqs = s.reqs := by
   unfold Sys.run
